@@ -1,6 +1,7 @@
 """Rule-level equivalence obligations: the real rule function, run on every shape vector of opaque
 children, must emit code whose pysem equals the hysem of the form (hv.equiv).  One obligation per
 (rule case, shape vector); fixed-arity cases are `proved`, variadic ones `arity_bounded`."""
+from hv import core  # noqa: E402
 import multiprocessing as mp
 import os
 import time
@@ -106,7 +107,7 @@ def run_cases(chk, names, prefix="equiv", replay_fn=None):
         ctx = mp.get_context("fork")
         import gc; gc.collect(); gc.freeze()  # forked workers then touch (copy) far fewer pages
         with ctx.Pool(jobs) as pool:
-            results = pool.map(_work, tasks, chunksize=max(1, len(tasks) // (jobs * 8)))
+            results = core.pmap(pool, _work, tasks, chunksize=max(1, len(tasks) // (jobs * 8)))
     else:
         results = [_work(t) for t in tasks]
     paths = 0
